@@ -97,11 +97,9 @@ Apply(F, ins) ==
                 flat(i) == IF ins[i].T.n = maxsize THEN Flat([p \in 1..n |-> ins[i].xs[p].xs])
                            ELSE Flat([p \in 1..n |-> Repeat(ins[i].xs[p].xs[1], maxsize)])
                 next == [i \in 1..N |-> IF i \in Ls THEN BArr(flat(i), ins[i].T.x) ELSE ins[i]]
-                \* a size-1 dimension against a size-0 one: NumPy repeats it zero times, the library's RegularArray branch
-                \* refuses (it requires maxsize > 1); the statement does not decide -- outside the quantifier
-                r == IF bad THEN BErr
-                     ELSE IF maxsize = 0 /\ (\E i \in Ls : ins[i].T.n = 1) THEN [ok |-> 3]
-                     ELSE Apply(F, next)
+                \* (a size-1 dimension against a size-0 one repeats zero times, as in NumPy; the library used to refuse this
+                \*  -- finding F89, found through ak.cartesian of fixed-size-0 lists -- and the rule was Unspec here until then)
+                r == IF bad THEN BErr ELSE Apply(F, next)
             IN IF r.ok # 1 THEN r
                ELSE IF Len(r.xs) # n * maxsize THEN BErr      \* (cannot happen when r is ok; keeps the operator total)
                ELSE BOk([p \in 1..n |-> VList(SubSeq(r.xs, (p - 1) * maxsize + 1, p * maxsize))])
